@@ -43,6 +43,37 @@ import (
 
 const pkgPath = "github.com/richardwilkes/toolbox/xmath/num"
 
+// target: what one run translates.
+//
+//	num (default)  package xmath/num: the 128-bit integers of property C01
+//	f64            packages xmath/fixed (the configurations D1..D16) and xmath/fixed/f64 (property C03); the functions
+//	               of f64 are generic over `T fixed.Dx`: the generic body is translated once, and the type parameter
+//	               becomes a dictionary — one Lean parameter per method of the constraint (`T_Multiplier`, `T_Places`),
+//	               which stands for the value of that method on the zero value of T (the only way the package calls it)
+type target struct {
+	name     string
+	pkgs     []string          // import paths, in the order their functions are emitted
+	prefix   map[string]string // import path -> prefix of the Lean names
+	display  map[string]string // import path -> prefix of the names in the listing
+	bits     bool              // math/bits calls are available (contract definitions of Model/U128.lean)
+	allowDiv bool              // integer division by a non-constant is translated (total: BitVec.sdiv / srem / udiv / umod)
+	imports  []string
+	what     string
+}
+
+const fixedPath = "github.com/richardwilkes/toolbox/xmath/fixed"
+const f64Path = "github.com/richardwilkes/toolbox/xmath/fixed/f64"
+
+var targets = map[string]*target{
+	"num": {name: "num", pkgs: []string{pkgPath}, prefix: map[string]string{pkgPath: ""}, display: map[string]string{pkgPath: ""},
+		bits: true, imports: []string{"Model.U128", "Model.I128", "Lemmas.GenAttr"}, what: "package xmath/num"},
+	"f64": {name: "f64", pkgs: []string{fixedPath, f64Path}, prefix: map[string]string{fixedPath: "Fixed_", f64Path: "F64_"},
+		display: map[string]string{fixedPath: "fixed.", f64Path: "f64."}, allowDiv: true,
+		imports: []string{"Lemmas.GenAttr"}, what: "packages xmath/fixed and xmath/fixed/f64"},
+}
+
+var cur = targets["num"]
+
 // Go struct type name -> Lean structure of the hand-written model (same fields, same order)
 var structMap = map[string]string{"Uint128": "U128", "Int128": "I128"}
 
@@ -76,6 +107,7 @@ const (
 	kStruct
 	kTuple
 	kPtr
+	kTPZero // the zero value of a type parameter (only method calls through the dictionary are possible)
 )
 
 // val is the symbolic value of an SSA register on one path.
@@ -90,6 +122,8 @@ type val struct {
 	// kPtr
 	alloc *ssa.Alloc
 	fidx  int // -1: the whole object
+	// kTPZero
+	tp *types.TypeParam
 }
 
 func par(v val) string {
@@ -165,6 +199,9 @@ func leanType(t types.Type) string {
 			parts[i] = leanType(tup.At(i).Type())
 		}
 		return strings.Join(parts, " × ")
+	}
+	if tp, ok := types.Unalias(t).(*types.TypeParam); ok {
+		fail("value of the type parameter %s (its operations depend on the instantiation)", tp.Obj().Name())
 	}
 	fail("type %s", types.TypeString(t, func(p *types.Package) string { return p.Name() }))
 	return ""
@@ -260,7 +297,9 @@ type global struct {
 
 type gen struct {
 	prog    *ssa.Program
-	pkg     *ssa.Package
+	pkg     *ssa.Package // the package being collected / the package of the function being translated
+	pkgs    map[*ssa.Package]*packages.Package
+	partial map[*ssa.Function]string // translated, but the Go function panics on some inputs (why)
 	tpkg    *packages.Package
 	fns     []*ssa.Function
 	names   map[*ssa.Function]string // display name: Uint128.Add
@@ -293,30 +332,33 @@ func ident(s string) string {
 	return s
 }
 
-func (g *gen) collect() {
+func (g *gen) collect(sp *ssa.Package) {
+	pre := cur.prefix[sp.Pkg.Path()]
+	dis := cur.display[sp.Pkg.Path()]
+	var found []*ssa.Function
 	add := func(f *ssa.Function, disp, lean string) {
 		if f == nil || f.Synthetic != "" || f.Blocks == nil {
 			return
 		}
-		g.fns = append(g.fns, f)
-		g.names[f] = disp
-		g.lname[f] = lean
+		found = append(found, f)
+		g.names[f] = dis + disp
+		g.lname[f] = pre + lean
 	}
 	var mnames []string
-	for n := range g.pkg.Members {
+	for n := range sp.Members {
 		mnames = append(mnames, n)
 	}
 	sort.Strings(mnames)
 	for _, n := range mnames {
-		switch m := g.pkg.Members[n].(type) {
+		switch m := sp.Members[n].(type) {
 		case *ssa.Function:
-			if m.Name() == "init" || m.TypeParams().Len() > 0 {
+			if m.Name() == "init" {
 				continue
 			}
 			add(m, m.Name(), m.Name())
 		case *ssa.Type:
 			named, ok := m.Type().(*types.Named)
-			if !ok || named.TypeParams().Len() > 0 {
+			if !ok {
 				continue
 			}
 			for i := 0; i < named.NumMethods(); i++ {
@@ -326,7 +368,8 @@ func (g *gen) collect() {
 			}
 		}
 	}
-	sort.Slice(g.fns, func(i, j int) bool { return g.names[g.fns[i]] < g.names[g.fns[j]] })
+	sort.Slice(found, func(i, j int) bool { return g.names[found[i]] < g.names[found[j]] })
+	g.fns = append(g.fns, found...)
 }
 
 func (g *gen) translate(f *ssa.Function) (ok bool) {
@@ -354,16 +397,93 @@ func (g *gen) translate(f *ssa.Function) (ok bool) {
 	g.text[f] = t.run()
 	g.state[f] = 2
 	g.order = append(g.order, f)
+	if len(t.partial) > 0 {
+		g.partial[f] = strings.Join(t.partial, "; ")
+	}
 	return true
 }
 
 // ---------------------------------------------------------------------------------------------------------- one function
 
 type fnTrans struct {
-	g     *gen
-	f     *ssa.Function
-	paths int
-	ipdom map[*ssa.BasicBlock]*ssa.BasicBlock
+	g       *gen
+	f       *ssa.Function
+	paths   int
+	ipdom   map[*ssa.BasicBlock]*ssa.BasicBlock
+	dict    map[*types.TypeParam]map[string]val // the methods of the constraint of each type parameter
+	partial []string
+}
+
+// dictionary builds the Lean parameters that stand for the type parameters of f
+func (t *fnTrans) dictionary() []string {
+	t.dict = map[*types.TypeParam]map[string]val{}
+	var params []string
+	tps := t.f.TypeParams()
+	for k := 0; k < tps.Len(); k++ {
+		tp := tps.At(k)
+		iface, ok := tp.Constraint().Underlying().(*types.Interface)
+		if !ok {
+			fail("type parameter %s without an interface constraint", tp.Obj().Name())
+		}
+		entries := map[string]val{}
+		var names []string
+		for m := 0; m < iface.NumMethods(); m++ {
+			names = append(names, iface.Method(m).Name())
+		}
+		sort.Strings(names)
+		for _, mn := range names {
+			var meth *types.Func
+			for m := 0; m < iface.NumMethods(); m++ {
+				if iface.Method(m).Name() == mn {
+					meth = iface.Method(m)
+				}
+			}
+			sig := meth.Type().(*types.Signature)
+			if sig.Params().Len() != 0 || sig.Results().Len() != 1 {
+				fail("constraint method %s.%s is not a nullary function with one result", tp.Obj().Name(), mn)
+			}
+			pn := tp.Obj().Name() + "_" + mn
+			params = append(params, fmt.Sprintf("(%s : %s)", pn, leanType(sig.Results().At(0).Type())))
+			entries[mn] = namedOfType(pn, sig.Results().At(0).Type())
+		}
+		t.dict[tp] = entries
+	}
+	return params
+}
+
+// dictArgs: the dictionary a generic callee receives when it is instantiated at the type arguments targs
+func (t *fnTrans) dictArgs(callee *ssa.Function, targs []types.Type) []string {
+	tps := callee.TypeParams()
+	if tps.Len() != len(targs) {
+		fail("call of the generic %s with an unexpected number of type arguments", callee.Name())
+	}
+	var out []string
+	for k := 0; k < tps.Len(); k++ {
+		iface, ok := tps.At(k).Constraint().Underlying().(*types.Interface)
+		if !ok {
+			fail("type parameter without an interface constraint in %s", callee.Name())
+		}
+		var names []string
+		for m := 0; m < iface.NumMethods(); m++ {
+			names = append(names, iface.Method(m).Name())
+		}
+		if len(names) == 0 {
+			continue
+		}
+		sort.Strings(names)
+		atp, isTP := types.Unalias(targs[k]).(*types.TypeParam)
+		if !isTP || t.dict[atp] == nil {
+			fail("generic call of %s at a type that is not a type parameter of the caller", callee.Name())
+		}
+		for _, mn := range names {
+			v, has := t.dict[atp][mn]
+			if !has {
+				fail("type parameter %s has no method %s", atp.Obj().Name(), mn)
+			}
+			out = append(out, v.e)
+		}
+	}
+	return out
 }
 
 type env struct {
@@ -420,8 +540,11 @@ func (t *fnTrans) run() string {
 		resT = leanType(sig.Results())
 	}
 	e := &env{vals: map[ssa.Value]val{}, mem: map[*ssa.Alloc]val{}}
-	var params []string
+	params := t.dictionary()
 	used := map[string]bool{}
+	for _, p := range params {
+		used[strings.TrimPrefix(strings.Fields(p)[0], "(")] = true
+	}
 	for _, p := range f.Params {
 		lt := leanType(p.Type())
 		n := ident(p.Name())
@@ -491,6 +614,9 @@ func (t *fnTrans) get(x ssa.Value, e *env) val {
 	}
 	switch c := x.(type) {
 	case *ssa.Const:
+		if tp, ok := types.Unalias(c.Type()).(*types.TypeParam); ok && c.Value == nil {
+			return val{k: kTPZero, tp: tp}
+		}
 		if c.Value == nil {
 			return zeroOf(c.Type())
 		}
@@ -1171,8 +1297,14 @@ func (t *fnTrans) binop(i *ssa.BinOp, e *env) val {
 		}
 		return val{k: kInt, e: par(x) + " >>> " + cnt}
 	case token.QUO, token.REM:
-		if y.cst == nil || y.cst.Sign() == 0 {
-			fail("division by a non-constant (panics when the divisor is zero)")
+		if y.cst != nil && y.cst.Sign() == 0 {
+			fail("division by the constant zero")
+		}
+		if y.cst == nil {
+			if !cur.allowDiv {
+				fail("division by a non-constant (panics when the divisor is zero)")
+			}
+			t.partial = append(t.partial, "panics when the divisor "+y.e+" is zero")
 		}
 		_ = w
 		if signed {
@@ -1212,6 +1344,11 @@ func (t *fnTrans) convert(i *ssa.Convert, e *env) val {
 
 func (t *fnTrans) call(i *ssa.Call, e *env) val {
 	if i.Call.IsInvoke() {
+		if recv := t.get(i.Call.Value, e); recv.k == kTPZero && len(i.Call.Args) == 0 {
+			if v, ok := t.dict[recv.tp][i.Call.Method.Name()]; ok {
+				return v
+			}
+		}
 		fail("interface method call %s", i.Call.Method.Name())
 	}
 	callee := i.Call.StaticCallee()
@@ -1242,18 +1379,49 @@ func (t *fnTrans) call(i *ssa.Call, e *env) val {
 	switch {
 	case callee.Pkg != nil && callee.Pkg.Pkg.Path() == "math/bits":
 		b, ok := bitsMap[callee.Name()]
+		if !cur.bits {
+			ok = false
+		}
 		if !ok {
 			fail("call of bits.%s (no contract in the model)", callee.Name())
 		}
 		fn, natResult = b.lean, b.isNat
-	case callee.Pkg == t.g.pkg && callee.Synthetic == "" && callee.Blocks != nil && t.g.lname[callee] != "":
+	case t.g.lname[genericOrigin(callee)] != "":
+		var dargs []string
+		if o := callee.Origin(); o != nil {
+			// an instance `F[T]` of a generic function, called from a generic body
+			dargs = t.dictArgs(o, callee.TypeArgs())
+			callee = o
+		} else if callee.TypeParams().Len() > 0 {
+			// a method of a generic type: the type arguments are those of the receiver
+			if len(i.Call.Args) == 0 {
+				fail("generic call of %s without a receiver", callee.Name())
+			}
+			rt := types.Unalias(i.Call.Args[0].Type())
+			if p, isP := rt.(*types.Pointer); isP {
+				rt = types.Unalias(p.Elem())
+			}
+			named, isN := rt.(*types.Named)
+			if !isN {
+				fail("generic call of %s on an unnamed receiver", callee.Name())
+			}
+			var targs []types.Type
+			for k := 0; k < named.TypeArgs().Len(); k++ {
+				targs = append(targs, named.TypeArgs().At(k))
+			}
+			dargs = t.dictArgs(callee, targs)
+		}
 		if t.g.state[callee] == 1 {
 			fail("recursion through %s", t.g.names[callee])
 		}
 		if !t.g.translate(callee) {
 			fail("calls %s, which is outside the fragment", t.g.names[callee])
 		}
+		if why, isPartial := t.g.partial[callee]; isPartial {
+			t.partial = append(t.partial, "calls "+t.g.names[callee]+" ("+why+")")
+		}
 		fn = t.g.lname[callee]
+		args = append(dargs, args...)
 	default:
 		name := callee.Name()
 		if callee.Pkg != nil {
@@ -1291,6 +1459,13 @@ func (t *fnTrans) call(i *ssa.Call, e *env) val {
 	return val{}
 }
 
+func genericOrigin(f *ssa.Function) *ssa.Function {
+	if o := f.Origin(); o != nil {
+		return o
+	}
+	return f
+}
+
 // ---------------------------------------------------------------------------------------------------------- globals
 
 // globalValue: a package-level variable may be read as its initial value when it is initialised with a constant
@@ -1305,11 +1480,11 @@ func (g *gen) globalValue(gl *ssa.Global) val {
 			g.gbad[gl] = fmt.Sprintf(format, a...)
 			fail("%s", g.gbad[gl])
 		}
-		if gl.Pkg != g.pkg {
+		if g.pkgs[gl.Pkg] == nil {
 			bad("reads the variable %s of another package", gl.Name())
 		}
 		// never written outside the initialiser
-		for _, f := range allFuncs(g.pkg) {
+		for _, f := range allFuncs(gl.Pkg) {
 			if f.Name() == "init" && f.Synthetic != "" {
 				continue
 			}
@@ -1331,7 +1506,7 @@ func (g *gen) globalValue(gl *ssa.Global) val {
 		if init == nil {
 			bad("reads the package variable %s, which has no constant initialiser", gl.Name())
 		}
-		info := g.tpkg.TypesInfo
+		info := g.pkgs[gl.Pkg].TypesInfo
 		var def string
 		if tv, ok := info.Types[init]; ok && tv.Value != nil {
 			w, _, isI := intInfo(elem)
@@ -1415,7 +1590,7 @@ func allFuncs(p *ssa.Package) []*ssa.Function {
 
 func (g *gen) initExpr(gl *ssa.Global) ast.Expr {
 	obj := gl.Object()
-	for _, file := range g.tpkg.Syntax {
+	for _, file := range g.pkgs[gl.Pkg].Syntax {
 		for _, d := range file.Decls {
 			gd, ok := d.(*ast.GenDecl)
 			if !ok || gd.Tok != token.VAR {
@@ -1424,7 +1599,7 @@ func (g *gen) initExpr(gl *ssa.Global) ast.Expr {
 			for _, s := range gd.Specs {
 				vs := s.(*ast.ValueSpec)
 				for k, n := range vs.Names {
-					if g.tpkg.TypesInfo.Defs[n] == obj && len(vs.Values) == len(vs.Names) {
+					if g.pkgs[gl.Pkg].TypesInfo.Defs[n] == obj && len(vs.Values) == len(vs.Names) {
 						return vs.Values[k]
 					}
 				}
@@ -1456,30 +1631,51 @@ func wrap(words []string, indent string, width int) string {
 
 func main() {
 	if len(os.Args) < 3 {
-		fmt.Fprintln(os.Stderr, "usage: ssagen <repo dir> <out.lean>")
+		fmt.Fprintln(os.Stderr, "usage: ssagen <repo dir> <out.lean> [num|f64]")
 		os.Exit(2)
 	}
 	repo, outPath := os.Args[1], os.Args[2]
+	if len(os.Args) > 3 {
+		if targets[os.Args[3]] == nil {
+			fmt.Fprintln(os.Stderr, "unknown target", os.Args[3])
+			os.Exit(2)
+		}
+		cur = targets[os.Args[3]]
+	}
 	cfg := &packages.Config{Mode: packages.LoadAllSyntax, Dir: repo, Tests: false}
-	pkgs, err := packages.Load(cfg, pkgPath)
+	pkgs, err := packages.Load(cfg, cur.pkgs...)
 	if err != nil {
 		fmt.Fprintln(os.Stderr, "load:", err)
 		os.Exit(1)
 	}
-	if len(pkgs) != 1 || len(pkgs[0].Errors) > 0 {
-		fmt.Fprintln(os.Stderr, "load: package errors:", pkgs[0].Errors)
-		os.Exit(1)
+	byPath := map[string]*packages.Package{}
+	for _, p := range pkgs {
+		if len(p.Errors) > 0 {
+			fmt.Fprintln(os.Stderr, "load: package errors:", p.Errors)
+			os.Exit(1)
+		}
+		byPath[p.PkgPath] = p
 	}
-	prog, spkgs := ssautil.Packages(pkgs, ssa.BuilderMode(0))
-	if spkgs[0] == nil {
-		fmt.Fprintln(os.Stderr, "no SSA package")
-		os.Exit(1)
-	}
-	spkgs[0].Build()
-	g := &gen{prog: prog, pkg: spkgs[0], tpkg: pkgs[0], names: map[*ssa.Function]string{}, lname: map[*ssa.Function]string{},
+	prog, _ := ssautil.AllPackages(pkgs, ssa.BuilderMode(0))
+	g := &gen{prog: prog, names: map[*ssa.Function]string{}, lname: map[*ssa.Function]string{},
 		state: map[*ssa.Function]int{}, reason: map[*ssa.Function]string{}, text: map[*ssa.Function]string{},
-		globals: map[*ssa.Global]*global{}, gbad: map[*ssa.Global]string{}}
-	g.collect()
+		globals: map[*ssa.Global]*global{}, gbad: map[*ssa.Global]string{}, pkgs: map[*ssa.Package]*packages.Package{},
+		partial: map[*ssa.Function]string{}}
+	for _, path := range cur.pkgs {
+		tp := byPath[path]
+		if tp == nil {
+			fmt.Fprintln(os.Stderr, "package not loaded:", path)
+			os.Exit(1)
+		}
+		sp := prog.Package(tp.Types)
+		if sp == nil {
+			fmt.Fprintln(os.Stderr, "no SSA package for", path)
+			os.Exit(1)
+		}
+		sp.Build()
+		g.pkgs[sp] = tp
+		g.collect(sp)
+	}
 	for _, f := range g.fns {
 		g.translate(f)
 	}
@@ -1488,29 +1684,60 @@ func main() {
 		Name   string `json:"name"`
 		Reason string `json:"reason"`
 	}
-	var skipped []skip
+	var skipped, partial []skip
 	for _, f := range g.fns {
 		if g.state[f] == 2 {
 			translated = append(translated, g.names[f])
+			if why, ok := g.partial[f]; ok {
+				partial = append(partial, skip{g.names[f], why})
+			}
 		} else {
 			skipped = append(skipped, skip{g.names[f], g.reason[f]})
 		}
 	}
 	var sb strings.Builder
-	sb.WriteString("import Model.U128\nimport Model.I128\nimport Lemmas.GenAttr\n")
-	sb.WriteString("/-! GENERATED by /verif/gossa (ssagen) from the typed SSA form of package xmath/num — do not edit.\n")
-	sb.WriteString("    Regenerated from the working tree of the repository on every run of `./check C01`.\n\n")
+	for _, im := range cur.imports {
+		sb.WriteString("import " + im + "\n")
+	}
+	fmt.Fprintf(&sb, "/-! GENERATED by /verif/gossa (ssagen) from the typed SSA form of %s — do not edit.\n", cur.what)
+	if cur.name == "num" {
+		sb.WriteString("    Regenerated from the working tree of the repository on every run of `./check C01`.\n\n")
+	} else {
+		sb.WriteString("    Regenerated from the working tree of the repository on every run of `./check C03`.\n\n")
+	}
 	sb.WriteString("    Encoding: every Go integer of width w is a `BitVec w` (int, uint, int64, uint64: `BitVec 64`; `+ - *` wrap;\n")
 	sb.WriteString("    signed comparisons go through `toInt`, unsigned ones through `toNat`; `x << n`, `x >> n` take the count as a\n")
 	sb.WriteString("    natural number, so a count ≥ 64 gives 0 as in Go; a signed `>>` is `BitVec.sshiftRight`); `bool` is `Bool`;\n")
-	sb.WriteString("    Uint128 / Int128 are the records `U128` / `I128` of the model; `math/bits` calls are the contract\n")
-	sb.WriteString("    definitions of Model/U128.lean (`add64 sub64 mul64 len64 clz ctz popcount`, the `int` results embedded\n")
-	sb.WriteString("    with `BitVec.ofNat 64`); package variables with a constant initialiser that the package never writes are\n")
-	sb.WriteString("    read as that constant.  A branch is `if … then … else …`; where both arms of a branch meet again the\n")
+	if cur.name == "num" {
+		sb.WriteString("    Uint128 / Int128 are the records `U128` / `I128` of the model; `math/bits` calls are the contract\n")
+		sb.WriteString("    definitions of Model/U128.lean (`add64 sub64 mul64 len64 clz ctz popcount`, the `int` results embedded\n")
+		sb.WriteString("    with `BitVec.ofNat 64`); package variables with a constant initialiser that the package never writes are\n")
+		sb.WriteString("    read as that constant.  A branch is `if … then … else …`; where both arms of a branch meet again the\n")
+	} else {
+		sb.WriteString("    a signed `/` is `BitVec.sdiv`, a signed `%` is `BitVec.srem` (Go's truncated division, `MinInt64 / -1`\n")
+		sb.WriteString("    wraps); a division by a non-constant is translated as that total operation and the function is listed\n")
+		sb.WriteString("    below as PARTIAL: the Go function panics when the divisor is zero, the definition describes it elsewhere.\n")
+		sb.WriteString("    A function that is generic over `T fixed.Dx` is translated once from its generic body; the type parameter\n")
+		sb.WriteString("    becomes a dictionary: one parameter per method of the constraint (`T_Multiplier`, `T_Places`), the value\n")
+		sb.WriteString("    of that method on the zero value of T, which is the only way the package calls it (`var t T;\n")
+		sb.WriteString("    t.Multiplier()`); the methods of the configurations D1..D16 are translated as they are (they ignore their\n")
+		sb.WriteString("    receiver).  A branch is `if … then … else …`; where both arms of a branch meet again the\n")
+	}
 	sb.WriteString("    values that differ at the join (phi nodes, updated fields of a local struct) are `let`-bound to the\n")
 	sb.WriteString("    `if` expression; other join blocks are duplicated per path.  The attributes `gen_def` / `gen_const`\n")
-	sb.WriteString("    (Lemmas/GenAttr.lean) collect the definitions for the proof script of Props/C01Gen.lean.\n\n")
+	if cur.name == "num" {
+		sb.WriteString("    (Lemmas/GenAttr.lean) collect the definitions for the proof script of Props/C01Gen.lean.\n\n")
+	} else {
+		sb.WriteString("    (Lemmas/GenAttr.lean) collect the definitions for the proof script of Props/C03Gen.lean.\n\n")
+	}
 	fmt.Fprintf(&sb, "    translated (%d):\n%s\n\n", len(translated), wrap(translated, "      ", 116))
+	if len(partial) > 0 {
+		fmt.Fprintf(&sb, "    PARTIAL (%d):\n", len(partial))
+		for _, s := range partial {
+			fmt.Fprintf(&sb, "      %s — %s\n", s.Name, s.Reason)
+		}
+		sb.WriteString("\n")
+	}
 	fmt.Fprintf(&sb, "    outside the fragment (%d):\n", len(skipped))
 	for _, s := range skipped {
 		fmt.Fprintf(&sb, "      %s — %s\n", s.Name, s.Reason)
@@ -1531,6 +1758,12 @@ func main() {
 		fmt.Fprintln(os.Stderr, err)
 		os.Exit(1)
 	}
-	js, _ := json.Marshal(map[string]any{"translated": translated, "skipped": skipped})
+	var lean []string
+	for _, f := range g.fns {
+		if g.state[f] == 2 {
+			lean = append(lean, g.lname[f])
+		}
+	}
+	js, _ := json.Marshal(map[string]any{"translated": translated, "skipped": skipped, "partial": partial, "lean": lean})
 	fmt.Println(string(js))
 }
